@@ -306,10 +306,40 @@ Proof.
   - cbn [how started] in *. apply IH; assumption.
 Qed.
 
+(* no timeout configured (zero or negative) and no caller deadline: the timeout branch is never taken - a peer may stall
+   for as long as it likes in the middle of the header and still be served when it completes it *)
+Theorem no_timeout_never_cuts_off n t s : steps (init n t) s ->
+  timeout <= 0 -> (forall i, cdl i = None) -> how s <> Some false /\ closed s = None.
+Proof.
+  intros Hs Hz Hcd.
+  assert (Hh : how s <> Some false).
+  { remember (init n t) as s0 eqn:E0. induction Hs as [s|s1 s2 s3 Hs IH Hst]; [subst; discriminate|].
+    subst s1. specialize (IH eq_refl).
+    pose proof (inv_steps _ _ (inv_init n t) Hs) as (Ia & Ib & Id & Ie & If & Ig & Is & Ih & Iu & Ifl & Ii & Ic0 & Ic1 & Ic2).
+    destruct Hst as [s i s' Hc | s t' Hle Hw]; [|exact IH].
+    inversion Hc; subst; cbn [how]; try exact IH; try discriminate.
+    destruct (Is _ _ _ _ H) as (_ & _ & _ & _ & _ & Hd & _).
+    rewrite (Hcd i), (no_deadline_without_timeout timeout t0 Hz) in Hd. discriminate. }
+  split; [exact Hh|].
+  destruct (inv_steps _ _ (inv_init n t) Hs) as (Ia & Ib & Id & Ie & If & Ig & Is & Ih & Iu & Ifl & Ii & Ic0 & Ic1 & Ic2).
+  destruct (how s) as [[|]|] eqn:Eh; [destruct (Ic1 eq_refl); assumption | congruence | apply Ic0; reflexivity].
+Qed.
+
 Lemma cstep_now s i s' : cstep s i s' -> now s' = now s.
 Proof. intros H; inversion H; reflexivity. Qed.
 
 End OnceT.
+
+(* the same, for the timeout as proxyproto.Listener.Accept derives it from the listener's value *)
+Theorem zero_listener_timeout_is_no_limit (R : Type) (res : nat -> R) (arrival : nat -> option Z) (tmo : R)
+    (verbatim : bool) (listener_timeout dflt : Z) (cdl : nat -> option Z) (o_recheck o_fast : bool) n t s :
+  verbatim = true -> o_recheck = true ->
+  steps R res arrival tmo (accept_timeout verbatim dflt listener_timeout) cdl o_recheck o_fast (init R n t) s ->
+  listener_timeout <= 0 -> (forall i, cdl i = None) -> how R s <> Some false /\ closed R s = None.
+Proof.
+  intros -> Hre Hs Hz Hcd. unfold accept_timeout in Hs.
+  exact (no_timeout_never_cuts_off R res arrival tmo listener_timeout cdl o_recheck o_fast Hre n t s Hs Hz Hcd).
+Qed.
 
 (* ------------------------------------------------------------------ two connections: only that connection fails *)
 (* Two connections share nothing but the clock (the translator checks that package proxyproto has no package-level
